@@ -1,6 +1,6 @@
 (* C09: the correspondence cases (what py/dv/c09.py sends to the model) and `case_ok`. *)
 From Coq Require Import ZArith List Bool.
-From DV Require Import Model.PyPrims Model.C09AlphaTypes Model.C09Alphabets Model.C09Model Model.C09Nexus.
+From DV Require Import Model.PyPrims Model.C09AlphaTypes Model.C09Alphabets Model.C09Model Model.C09Nexus Model.C09Dataset.
 Import ListNotations.
 Open Scope Z_scope.
 
@@ -30,8 +30,12 @@ Record nx_obs := mkNO {
   no_link : option tok
 }.
 
+(* the symbol-less states, ambiguous ones (1000+k) before polymorphic ones (2000+k), each group in
+   creation order: the relative creation order between the two groups is not observable *)
 Definition fresh_of (a : alphabet) : list (Z * list Z) :=
-  map (fun s => (s_index s, s_members s)) (filter (fun s => 1000 <=? s_index s) (a_states a)).
+  map (fun s => (s_index s, s_members s))
+      (filter (fun s => (1000 <=? s_index s) && (s_index s <? 2000)) (a_states a)
+       ++ filter (fun s => 2000 <=? s_index s) (a_states a)).
 
 Definition nx_obs_eqb (b : block_result) (o : nx_obs) : bool :=
   dtype_eqb (br_dtype b) (no_dtype o)
@@ -61,7 +65,10 @@ Inductive case :=
 (* NEXUS, token level *)
 | NexusWrite (dt : dtype) (al : list alphabet) (sym_order : list text) (o : nx_wopts) (m : matrix)
              (expect : res (list tok))
-| NexusRead (lowtab : list (text * text)) (st : nx_state) (toks : list tok) (expect : res (list nx_obs)).
+| NexusRead (lowtab : list (text * text)) (st : nx_state) (toks : list tok) (expect : res (list nx_obs))
+(* one CHARACTERS block of a document with several TAXA blocks: `tab` is the reader's namespace table *)
+| NexusReadIn (lowtab : list (text * text)) (tab : ns_table) (st : nx_state) (toks : list tok)
+              (expect : res (list nx_obs)).
 
 Definition case_run_text (c : case) : res text :=
   match c with
@@ -86,7 +93,13 @@ Definition case_run_tokens (c : case) : res (list tok) :=
 Definition case_run_blocks (c : case) : res (list block_result) :=
   match c with
   | NexusRead lt st toks _ =>
-    match read_chars_block (lower_of lt) st toks with
+    match read_chars_block (lower_of lt) keep_ns st toks with
+    | Ok (_, brs, _) => Ok brs
+    | Err e => Err e
+    | OutOfFuel => OutOfFuel
+    end
+  | NexusReadIn lt tab st toks _ =>
+    match read_chars_block (lower_of lt) (resolve_in tab) st toks with
     | Ok (_, brs, _) => Ok brs
     | Err e => Err e
     | OutOfFuel => OutOfFuel
@@ -100,7 +113,7 @@ Definition case_ok (c : case) : bool :=
   | PhylipWrite _ _ _ e => res_eqb text_eqb (case_run_text c) e
   | FastaRead _ _ _ e | PhylipRead _ _ _ _ e => res_eqb matrix_eqb (case_run_matrix c) e
   | NexusWrite _ _ _ _ _ e => res_eqb toks_eqb (case_run_tokens c) e
-  | NexusRead _ _ _ e =>
+  | NexusRead _ _ _ e | NexusReadIn _ _ _ _ e =>
     match case_run_blocks c, e with
     | Ok brs, Ok os => forall2b nx_obs_eqb brs os
     | Err x, Err y => err_eqb x y
